@@ -42,7 +42,11 @@ def setup_events(tc, with_e: bool, pop: str = "full") -> List[List]:
         if pop == "all-only" and s in ("L", "F"):
             continue  # nobody names FAILED_MESSAGE and no logger is connected: the only observer of notices is A (subscribed to everything)
         lg = 1 if s == "L" else 0
-        ev += [["conn", s], ev_send(s, fr(tc, P.MT_CONNECT_V2, P.p_connect_v2(lg, 0, 0, IDS[s], 0, s.encode()), src_mod_id=IDS[s])), ["settle"]]
+        if pop == "v1-logger" and s == "L":
+            # a logger that speaks the old handshake only: CONNECT with the logger flag, the id in the frame header
+            ev += [["conn", s], ev_send(s, fr(tc, P.MT_CONNECT, P.p_connect(1, 0), src_mod_id=IDS[s])), ["settle"]]
+        else:
+            ev += [["conn", s], ev_send(s, fr(tc, P.MT_CONNECT_V2, P.p_connect_v2(lg, 0, 0, IDS[s], 0, s.encode()), src_mod_id=IDS[s])), ["settle"]]
         for t in SUBS.get(s, []) + ([P.MT_CLIENT_INFO] if (pop == "info" and s in ("S1", "S2")) else []):
             if pop == "all-only" and t == P.MT_FAILED_MESSAGE:
                 continue
@@ -116,6 +120,11 @@ def scenarios(tier: str) -> List[Dict[str, Any]]:
                     for how in (("fin", "rst") if dead else ("-",)):
                         out.append(dict(tc=tc, grace=grace, flip=flip, label=label + "/observers-by-ALL-only", data=data.hex(), desc=dict(desc, multi=True), nw=nw, dead=dead, how=how,
                                         departure=False, pop="all-only"))
+        # the logger connected with the old handshake: it is waited for like any logger
+        for label, data, desc in kinds(tc)[:2]:
+            for nw in (["L"], ["L", "S1"], ["L", "A"]):
+                out.append(dict(tc=tc, grace=grace, flip=flip, label=label + "/v1-logger", data=data.hex(), desc=dict(desc, multi=True), nw=nw, dead=[], how="-",
+                                departure=False, pop="v1-logger"))
         # a message the manager originates itself (CLIENT_INFO after P's MODULE_READY / CLIENT_SET_NAME) cannot be delivered to
         # some of its subscribers; a second one follows (what one publication leaves behind must not leak into the next)
         infos = fr(tc, P.MT_MODULE_READY, P.P_READY.pack(4321), src_mod_id=IDS["P"])
